@@ -410,7 +410,8 @@ pub fn validate_cbor_from_slice(
 ) -> cbor::Result<std::io::Error> {
   let cddl = cddl_from_str(cddl, true).map_err(cbor::Error::CDDLParsing)?;
 
-  let cbor = decode_cbor(cbor_slice).map_err(|e| cbor::Error::CDDLParsing(e.to_string()))?;
+  let cbor = decode_cbor(cbor_slice)
+    .map_err(|e| cbor::Error::CBORParsing(ciborium::de::Error::Semantic(None, e.to_string())))?;
 
   let mut cv = CBORValidator::new(&cddl, cbor, enabled_features);
   cv.validate()
@@ -422,7 +423,8 @@ pub fn validate_cbor_from_slice(
 /// Validate CBOR slice from a given CDDL document string
 pub fn validate_cbor_from_slice(cddl: &str, cbor_slice: &[u8]) -> cbor::Result<std::io::Error> {
   let cddl = cddl_from_str(cddl, true).map_err(cbor::Error::CDDLParsing)?;
-  let cbor = decode_cbor(cbor_slice).map_err(|e| cbor::Error::CDDLParsing(e.to_string()))?;
+  let cbor = decode_cbor(cbor_slice)
+    .map_err(|e| cbor::Error::CBORParsing(ciborium::de::Error::Semantic(None, e.to_string())))?;
 
   let mut cv = CBORValidator::new(&cddl, cbor);
   cv.validate()
